@@ -18,8 +18,12 @@ ASSUMPTIONS = ['finite standard models with type-variable domains of size <= 3, 
                'Some/The interpreted by one fixed choice function satisfying some_AX / the_equality',
                '_VAR interpreted as the constantly true predicate',
                'evaluator calibrated at start-up: every theorem of logic_base must be valid in it']
-REQUIRED = {'quick': {'scripts_accepted': 300, 'sequents_judged': 1500, 'rules_all15_seen': 1},
-            'thorough': {'scripts_accepted': 5000, 'sequents_judged': 20000, 'rules_all15_seen': 1}}
+REQUIRED = {'quick': {'scripts_accepted': 300, 'sequents_judged': 1500, 'rules_all15_seen': 1,
+                      'directed_stv_substitutions': 150, 'directed_capture_attempts': 60, 'directed_sharing_binders': 100,
+                      'open_term_arguments': 40},
+            'thorough': {'scripts_accepted': 5000, 'sequents_judged': 20000, 'rules_all15_seen': 1,
+                         'directed_stv_substitutions': 1500, 'directed_capture_attempts': 600, 'directed_sharing_binders': 1000,
+                         'open_term_arguments': 400}}
 
 RULES = ['assume', 'implies_intr', 'implies_elim', 'reflexive', 'symmetric', 'transitive',
          'combination', 'equal_intr', 'equal_elim', 'subst_type', 'substitution', 'beta_conv',
@@ -112,7 +116,118 @@ class ScriptGen:
 
     def term(self, T, depth=None):
         d = self.rng.choice([1, 2, 2, 3]) if depth is None else depth
+        if self.rng.random() < 0.04:
+            # adversarial argument: an OPEN term (a loose de Bruijn index, alone or inside a generated term)
+            self.ctx.count('open_term_arguments')
+            k = self.rng.choice([0, 0, 1])
+            r = self.rng.random()
+            if r < 0.5:
+                return S.to_repo_term(('bound', k))
+            if r < 0.8:
+                A = self.tg.rand_type()
+                return S.to_repo_term(('comb', self.tg.gen(S.fun(A, T), 1), ('bound', k)))
+            return S.to_repo_term(('abs', self.rng.choice(self.tg.names), self.tg.rand_type(), ('bound', k + 1)))
         return S.to_repo_term(self.tg.gen(T, d))
+
+    def directed_capture(self):
+        """|- (!y. y = x) --> (!u v. u = v) for a free (or schematic) x, then the substitution x := <loose bound
+        variable>: if the rule accepts the open term it is captured by !y and the result is refutable"""
+        from kernel.term import Inst
+        rng = self.rng
+        T = self.tg.rand_type()
+        kind = rng.choice(['var', 'svar'])
+        nx, ny, nu, nv = rng.sample(['x', 'y', 'u', 'v', 'w', 'k'], 4)
+        x = (kind, nx, T)
+        EQ = ('const', 'equals', S.funs(T, T, S.BOOL))
+        ALL = ('const', 'all', S.fun(S.fun(T, S.BOOL), S.BOOL))
+        Hs = ('comb', ALL, ('abs', ny, T, S.mk_comb(EQ, ('bound', 0), x)))
+        H = S.to_repo_term(Hs)
+        u, v = S.to_repo_term(('var', nu, T)), S.to_repo_term(('var', nv, T))
+        b = len(self.shs)
+        seq = [('assume', H, []), ('forall_elim', u, [b]), ('forall_elim', v, [b]), ('symmetric', None, [b + 2]),
+               ('transitive', None, [b + 1, b + 3]), ('forall_intr', v, [b + 4]), ('forall_intr', u, [b + 5]),
+               ('implies_intr', H, [b + 6])]
+        for rule, args, prevs in seq:
+            if not self.add(rule, args, prevs):
+                return False
+        inst = Inst()
+        open_t = S.to_repo_term(rng.choice([('bound', 0), ('bound', 0), ('bound', 1)]))
+        if kind == 'svar':
+            inst[nx] = open_t
+        else:
+            inst.var_inst[nx] = open_t
+        self.ctx.count('directed_capture_attempts')
+        ok = self.add('substitution', inst, [len(self.shs) - 1])
+        if ok:
+            self.ctx.count('directed_capture_accepted_by_rule')
+        return ok
+
+    def directed_sharing(self):
+        """the kernel itself puts ONE hypothesis object at two binder depths: A |- A ; forall_intr y (y not in A:
+        the same object goes under the new binder) ; implies_intr A (the same object again, outside it) ; then a
+        binder over a variable of A is introduced by forall_intr / abstraction, which must index both occurrences
+        according to their own depth"""
+        rng = self.rng
+        T = self.tg.rand_type()
+        x = ('var', rng.choice(['x', 'a0', 'm']), T)
+        self.tg.ctx.append(x) if hasattr(self.tg, 'ctx') and isinstance(self.tg.ctx, list) else None
+        if rng.random() < 0.5:
+            P = ('var', rng.choice(['p', 'P', 'q1']), S.fun(T, S.BOOL))
+            As = ('comb', P, x)
+            if rng.random() < 0.4:
+                As = ('comb', P, ('comb', ('abs', 'z', T, ('bound', 0)), x))
+        else:
+            y0 = ('var', 'c9', T)
+            As = S.mk_comb(('const', 'equals', S.funs(T, T, S.BOOL)), x, y0)
+        A = S.to_repo_term(As, share={})
+        b = len(self.shs)
+        yv = S.to_repo_term(('var', rng.choice(['y', 'k7']), self.tg.rand_type()))
+        if not self.add('assume', A, []):
+            return False
+        if not self.add('forall_intr', yv, [b]):
+            return False
+        # the hypothesis OBJECT of the sequent, as implies_intr gets it from a proof state
+        if not self.add('implies_intr', self.ths[b + 1].hyps[0], [b + 1]):
+            return False
+        self.ctx.count('directed_sharing_sequents')
+        ok = self.add('forall_intr', S.to_repo_term(x), [b + 2])
+        if ok:
+            self.ctx.count('directed_sharing_binders')
+        if rng.random() < 0.5:
+            # the same through `abstraction` on an equation between two copies of the shared sequent's statement
+            self.add('reflexive', self.ths[b + 2].prop, [])
+            self.add('abstraction', S.to_repo_term(x), [len(self.shs) - 1])
+        return ok
+
+    def directed_stv(self):
+        """a sequent whose hypothesis mentions a schematic type variable but none of the schematic term variables
+        of the conclusion (assume !u v. body ; forall_elim twice with schematic variables), and then a substitution
+        that fixes the type variable through the instances of those variables only"""
+        from kernel.term import Inst
+        rng = self.rng
+        a = ('stv', rng.choice(['a', 'b']))
+        body = self.tg.gen(S.BOOL, rng.choice([1, 2]), (a, a))
+        if rng.random() < 0.5:
+            body = S.mk_comb(('const', 'equals', S.funs(a, a, S.BOOL)), ('bound', 1), ('bound', 0))
+        n1, n2 = rng.sample(self.tg.names, 2)
+        ALL = ('const', 'all', S.fun(S.fun(a, S.BOOL), S.BOOL))
+        H = ('comb', ALL, ('abs', n1, a, ('comb', ALL, ('abs', n2, a, body))))
+        if not self.add('assume', S.to_repo_term(H), []):
+            return False
+        sv = [('svar', nm, a) for nm in rng.sample(['x', 'z', 'w', 'P1'], 2)]
+        for v in sv:
+            if not self.add('forall_elim', S.to_repo_term(v), [len(self.shs) - 1]):
+                return False
+        self.ctx.count('directed_stv_sequents')
+        T0 = rng.choice([S.BOOL, S.fun(S.BOOL, S.BOOL), self.tg.rand_type()])
+        inst = Inst()
+        for v in sv:
+            if rng.random() < 0.9:
+                inst[v[1]] = S.to_repo_term(self.tg.gen(T0, 1))
+        ok = self.add('substitution', inst, [len(self.shs) - 1])
+        if ok:
+            self.ctx.count('directed_stv_substitutions')
+        return ok
 
     def add(self, rule, args, prevs):
         """run the real rule; keep the step if accepted"""
@@ -124,7 +239,11 @@ class ScriptGen:
             else:
                 f = primitive_deriv[rule][0]
                 pths = [self.ths[i] for i in prevs]
-                th = f(*pths) if args is None else f(args, *pths)
+                # trial run on a COPY of the argument: Term.subst completes the type instantiation of the Inst it
+                # is given in place, and the checker must see the argument as the script states it
+                import copy as _copy
+                trial = _copy.copy(args) if type(args).__name__ in ('Inst', 'TyInst') else args
+                th = f(*pths) if args is None else f(trial, *pths)
             sh = S.thm_shadow(th)
         except Exception as e:
             self.ctx.count('gen_rej:' + rule)
@@ -179,6 +298,13 @@ class ScriptGen:
         rule = rng.choice(RULES + ['theorem', 'assume', 'forall_intr', 'abstraction', 'substitution',
                                    'forall_elim', 'implies_elim', 'implies_intr'])
         n = len(self.shs)
+        r0 = rng.random()
+        if r0 < 0.04:
+            return self.directed_stv()
+        if r0 < 0.06:
+            return self.directed_capture()
+        if r0 < 0.09:
+            return self.directed_sharing()
         if rule == 'assume':
             t = None
             r = rng.random()
@@ -289,8 +415,22 @@ class ScriptGen:
             i = rng.randrange(n)
             inst = Inst()
             for a in self.atoms_of(i):
+                if a[0] in ('svar', 'var') and rng.random() < 0.06:
+                    # an open instance: captured if the variable stands under a binder and the rule lets it through
+                    t_open = S.to_repo_term(('bound', rng.choice([0, 0, 1])))
+                    if a[0] == 'svar' and a[1] not in inst:
+                        inst[a[1]] = t_open
+                    elif a[0] == 'var' and a[1] not in inst.var_inst:
+                        inst.var_inst[a[1]] = t_open
+                    self.ctx.count('open_term_arguments')
+                    continue
                 if a[0] == 'svar' and rng.random() < 0.7 and a[1] not in inst:
                     T = a[2] if rng.random() < 0.93 else self.tg.rand_type()
+                    if a[2][0] == 'stv' and rng.random() < 0.5:
+                        # fix the schematic type variable through the instance (consistently for all variables of that type)
+                        if not hasattr(self, '_stv_pick') or self._stv_pick[0] != len(self.steps):
+                            self._stv_pick = (len(self.steps), {})
+                        T = self._stv_pick[1].setdefault(a[2], self.tg.rand_type())
                     inst[a[1]] = self.term(T)
                 elif a[0] == 'var' and rng.random() < 0.25 and a[1] not in inst.var_inst:
                     inst.var_inst[a[1]] = self.term(a[2])
